@@ -73,9 +73,10 @@ static void alog_add(size_t n, int list) {
   if (n > alog_max) alog_max = n;
   if (list && n > ALLOC_FLOOR && alog_n < 64) alog[alog_n++] = n;
 }
-void *__wrap_malloc(size_t n) { alog_add(n, 1); return __real_malloc(n); }
-void *__wrap_calloc(size_t a, size_t b) { alog_add(a * b, 1); return __real_calloc(a, b); }
-void *__wrap_realloc(void *p, size_t n) { alog_add(n, 0); return __real_realloc(p, n); }
+/* only memory actually obtained counts (a refused request of an absurd size allocates nothing) */
+void *__wrap_malloc(size_t n) { void *p = __real_malloc(n); if (p) alog_add(n, 1); return p; }
+void *__wrap_calloc(size_t a, size_t b) { void *p = __real_calloc(a, b); if (p) alog_add(a * b, 1); return p; }
+void *__wrap_realloc(void *q, size_t n) { void *p = __real_realloc(q, n); if (p) alog_add(n, 0); return p; }
 
 /* ---- callback log -------------------------------------------------------------------- */
 static char cb[8192]; static size_t cbn;
@@ -288,6 +289,12 @@ static void op_cfg(const char *line) {
   W = kv(line, "w", 8); H = kv(line, "h", 8); BPP = kv(line, "bpp", 32);
   cfg_pw = kv(line, "pw", 0); cfg_ft = kv(line, "ft", 0); cfg_xvp = kv(line, "xvp", 0); cfg_utf8 = kv(line, "utf8", 0);
   cfg_wait = kv(line, "wait", 0); cfg_view = kv(line, "view", 0); cfg_dsz = kv(line, "dsz", 0);
+  if (kv(line, "ext", 0)) {
+    /* the TightVNC file-transfer extension (security type 16), rooted in the sandbox */
+    extern int SetFtpRoot(char *path);
+    rfbRegisterTightVNCFileTransferExtension();
+    if (sandbox[0]) SetFtpRoot(sandbox);
+  }
   scr = vs_screen(W, H, BPP / 8);
   if (!scr) { out("cfg fail\n"); _exit(0); }
   { /* framebuffer content classes: 0 byte pattern, 1 flat, 2 few colours, 3 noise, 4 smooth gradient (JPEG-friendly) */
